@@ -248,6 +248,13 @@ def pXOp : P XOp
 
 def answer (l : String) : String :=
   match tokens l with
+  | ["norm", t] =>
+    -- `DenseArgvals.normalization` of one dimension: exact rationals
+    match parseVec? t with
+    | some ts => match normalizeGrid ts with
+      | some r => "ok " ++ showVec r
+      | none => "nan"
+    | none => "bad"
   | "xop" :: g :: ts =>
     -- xop <guard> <history ops> | <one inherited list operation>: outcome and components after it
     let (pre, xt) := splitAt "|" ts
